@@ -342,15 +342,22 @@ def unbound_array_blocks(tool, job):
 
 
 def moved_block(a: list, b: list, block: list) -> bool:
-    """b is a with the contiguous `block` taken out and put back at another index."""
-    n = len(block)
-    for i in range(len(a) - n + 1):
-        if a[i:i + n] == block:
-            rest = a[:i] + a[i + n:]
-            for j in range(len(rest) + 1):
-                if j != i and rest[:j] + block + rest[j:] == b:
-                    return True
-    return False
+    """b is a permutation of a that only re-places the tokens of `block` (the array's item tokens, kept in
+    their own order); every other token keeps its relative order."""
+    if a == b or sorted(a) != sorted(b):
+        return False
+
+    def without(seq):
+        rest, k = [], 0
+        for tok in seq:
+            if k < len(block) and tok == block[k]:
+                k += 1
+            else:
+                rest.append(tok)
+        return rest if k == len(block) else None
+
+    ra, rb = without(a), without(b)
+    return ra is not None and ra == rb
 
 
 def explain(sh: Shard, case, ref, sf):
